@@ -22,58 +22,25 @@ theorem mem_forestRoots {g : Gss} {accepted : List Nat} {v e m : Nat} {ed : Edge
   rw [List.mem_flatMap]
   exact ⟨e, mem_backedges.mpr ⟨ed, he, hsrc⟩, by rw [possOf_eq he]; exact hm⟩
 
-theorem mainLoop_run {env : Env} (hT : TableOk env) (hC : CompleteRN env.g env.t) (hW : GWF env.g)
-    (hNS : ∀ s s', Action.shift s' ∉ env.t.cell s 0) {pp : Bool} {fuel n : Nat} {tok : Nat → Tok} {P L : Nat → Pos}
-    (hL : LexDet env pp fuel n tok P L) (halive0 : env.t.cell 0 (tok 0).kind ≠ [])
-    (full : Tree) (hv : full.Valid env.g env.g.startIdx) (hy : full.yield = kindsOf tok 0 n) :
+/-- the state in which the main loop ends: the invariant with an empty base -/
+def Final (env : Env) (n : Nat) (tok : Nat → Tok) (P : Nat → Pos) (o : Outcome GlrResult) : Prop :=
+  ∃ (F : Nat) (st : St) (lastBase : List Nat) (subs : Nat → SubFrontier), RunInv env tok P F st [] subs ∧ F ≤ n + 1 ∧
+    o = (if !st.accepted.isEmpty then .ok ⟨st.gss, forestRoots st.gss st.accepted⟩ else makeError env st.gss lastBase)
+
+/-- the main loop under `LexDet`: it runs out of fuel, panics, or ends in a `Final` state -/
+theorem mainLoop_final {env : Env} (hT : TableOk env) (hC : CompleteRN env.g env.t) (hW : GWF env.g)
+    {pp : Bool} {fuel n : Nat} {tok : Nat → Tok} {P L : Nat → Pos} (hL : LexDet env pp fuel n tok P L) :
     ∀ (cnt F : Nat) (st : St) (base lastBase : List Nat) (subs : Nat → SubFrontier),
       RunInv env tok P F st base subs → F ≤ n + 1 → (F = n + 1 → base = []) →
-      Good full (mainLoop env pp fuel cnt F st base lastBase)
-  | 0, _, _, _, _, _, _, _, _ => by simp [mainLoop, Good]
+      (mainLoop env pp fuel cnt F st base lastBase = .fuel) ∨ (∃ s, mainLoop env pp fuel cnt F st base lastBase = .panic s) ∨
+      Final env n tok P (mainLoop env pp fuel cnt F st base lastBase)
+  | 0, _, _, _, _, _, _, _, _ => by simp [mainLoop]
   | cnt+1, F, st, base, lastBase, subs, RI, hF, hlast => by
     unfold mainLoop
     cases base with
     | nil =>
-      simp only
-      -- every level is done in the final graph
-      have A : AllDone env st.gss tok n (fun k => if k < F then subs k else []) := by
-        refine ⟨hT, hC, hW, RI.sok.g, ?_⟩
-        intro k _
-        by_cases hk : k < F
-        · simp only [hk, ↓reduceIte]; exact RI.done k hk
-        · simp only [hk, ↓reduceIte]
-          refine ⟨fun _ _ h => by simp at h, ?_, fun _ _ _ h => by simp at h, ?_⟩
-          · intro u p pr Pc s' hkc
-            obtain ⟨v, _, s, hin⟩ := hkc.chain
-            simp at hin
-          · intro h' hd hh hl _
-            exfalso
-            rcases Nat.lt_or_ge F k with hlt | hge
-            · have := RI.gu.noAbove h' hd hh; omega
-            · have : k = F := by omega
-              subst this
-              have := RI.blevel h' hd hh hl
-              simp at this
-      have hstart : (0, 0) ∈ (fun k => if k < F then subs k else []) 0 := by
-        rcases RI.start with ⟨_, hb, _⟩ | ⟨hpos, hm⟩
-        · simp at hb
-        · simp only [hpos, ↓reduceIte]; exact hm
-      obtain ⟨s', v, e, ed, m, k, tr, hin, hacc, he, hsrc, _, hm, hinu, heq⟩ :=
-        accept_of_allDone A hstart hL.stop full hv hy
-      have hnF : n < F := by
-        rcases Nat.lt_or_ge n F with hlt | hge
-        · exact hlt
-        · have : ¬ n < F := by omega
-          simp only [this, ↓reduceIte] at hin
-          simp at hin
-      simp only [hnF, ↓reduceIte] at hin
-      have hvacc : v ∈ st.accepted := RI.acc n hnF s' v hin (by rw [hL.stop]; exact hacc)
-      have hne : st.accepted.isEmpty = false := by
-        cases hx : st.accepted with
-        | nil => rw [hx] at hvacc; simp at hvacc
-        | cons _ _ => rfl
-      simp only [hne, Bool.not_false, ↓reduceIte, Good]
-      exact ⟨m, k, tr, mem_forestRoots hvacc he hsrc hm, hinu, heq⟩
+      right; right
+      exact ⟨F, st, lastBase, subs, RI, hF, rfl⟩
     | cons b rest =>
       simp only
       have hFn : F ≤ n := by
@@ -84,12 +51,58 @@ theorem mainLoop_run {env : Env} (hT : TableOk env) (hC : CompleteRN env.g env.t
       | ok x =>
         obtain ⟨st', base'⟩ := x
         simp only [obind]
-        obtain ⟨hlast', sub, RI'⟩ := frontierStep_run hT hC hW hNS hL hFn RI halive0 hstep
-        exact mainLoop_run hT hC hW hNS hL halive0 full hv hy cnt (F + 1) st' base' _ _ RI' (by omega)
-          (fun heq => hlast' (by omega))
+        obtain ⟨hlast', sub, RI'⟩ := frontierStep_run hT hC hW hC.noShiftStop hL hFn RI hstep
+        exact mainLoop_final hT hC hW hL cnt (F + 1) st' base' _ _ RI' (by omega) (fun heq => hlast' (by omega))
       | err e => exact absurd hstep (frontierStep_noerr env pp fuel F st (b :: rest) e)
-      | panic s => simp [obind, Good]
-      | fuel => simp [obind, Good]
+      | panic s => right; left; exact ⟨s, by simp [obind]⟩
+      | fuel => left; simp [obind]
+
+/-- in a `Final` state reached on a sentence the derivation tree is among the roots -/
+theorem final_complete {env : Env} (hT : TableOk env) (hC : CompleteRN env.g env.t) (hW : GWF env.g)
+    {pp : Bool} {fuel n : Nat} {tok : Nat → Tok} {P L : Nat → Pos} (hL : LexDet env pp fuel n tok P L)
+    (halive0 : env.t.cell 0 (tok 0).kind ≠ [])
+    (full : Tree) (hv : full.Valid env.g env.g.startIdx) (hy : full.yield = kindsOf tok 0 n)
+    {o : Outcome GlrResult} (hfin : Final env n tok P o) : Good full o := by
+  obtain ⟨F, st, lastBase, subs, RI, hF, ho⟩ := hfin
+  have A : AllDone env st.gss tok n (fun k => if k < F then subs k else []) := by
+    refine ⟨hT, hC, hW, RI.sok.g, ?_⟩
+    intro k _
+    by_cases hk : k < F
+    · simp only [hk, ↓reduceIte]; exact RI.done k hk
+    · simp only [hk, ↓reduceIte]
+      refine ⟨fun _ _ h => by simp at h, ?_, fun _ _ _ h => by simp at h, ?_⟩
+      · intro u p pr Pc s' hkc
+        obtain ⟨v, _, s, hin⟩ := hkc.chain
+        simp at hin
+      · intro h' hd hh hl _
+        exfalso
+        rcases Nat.lt_or_ge F k with hlt | hge
+        · have := RI.gu.noAbove h' hd hh; omega
+        · have : k = F := by omega
+          subst this
+          have := RI.blevel h' hd hh hl
+          simp at this
+  have hstart : (0, 0) ∈ (fun k => if k < F then subs k else []) 0 := by
+    rcases RI.start with ⟨_, hb, _⟩ | ⟨hpos, hm⟩
+    · simp at hb
+    · simp only [hpos, ↓reduceIte]; exact hm halive0
+  obtain ⟨s', v, e, ed, m, k, tr, hin, hacc, he, hsrc, _, hm, hinu, heq⟩ :=
+    accept_of_allDone A hstart hL.stop full hv hy
+  have hnF : n < F := by
+    rcases Nat.lt_or_ge n F with hlt | hge
+    · exact hlt
+    · have : ¬ n < F := by omega
+      simp only [this, ↓reduceIte] at hin
+      simp at hin
+  simp only [hnF, ↓reduceIte] at hin
+  have hvacc : v ∈ st.accepted := RI.acc n hnF s' v hin (by rw [hL.stop]; exact hacc)
+  have hne : st.accepted.isEmpty = false := by
+    cases hx : st.accepted with
+    | nil => rw [hx] at hvacc; simp at hvacc
+    | cons _ _ => rfl
+  rw [ho]
+  simp only [hne, Bool.not_false, ↓reduceIte, Good]
+  exact ⟨m, k, tr, mem_forestRoots hvacc he hsrc hm, hinu, heq⟩
 
 /-- the run invariant holds at the start -/
 theorem runInv_start {env : Env} (hT : TableOk env) {tok : Nat → Tok} {P : Nat → Pos} (hp0 : P 0 = Pos.start)
@@ -113,7 +126,8 @@ theorem runInv_start {env : Env} (hT : TableOk env) {tok : Nat → Tok} {P : Nat
     · intro e ed he; exact absurd (hnoedge e ed he) id
     · intro e e' ed ed' n he; exact absurd (hnoedge e ed he) id
   refine ⟨⟨hg, fun _ h => by simp at h, fun _ h => by simp at h⟩, rfl, ?_, ?_, by simp, ?_, ?_, ?_, ?_,
-    fun k hk => by omega, fun k hk => by omega, Or.inl ⟨rfl, rfl, startHead, hstart, rfl⟩⟩
+    fun k hk => by omega, fun k hk => by omega, Or.inl ⟨rfl, rfl, startHead, hstart, rfl⟩,
+    fun h hd hh hl => by omega, ?_, ?_, ?_⟩
   · intro h hh
     simp only [addHead_idx, List.mem_singleton] at hh
     subst hh
@@ -133,6 +147,23 @@ theorem runInv_start {env : Env} (hT : TableOk env) {tok : Nat → Tok} {P : Nat
     obtain ⟨h0, _⟩ := hheads h hd hh
     simp [h0]
   · intro e ed hs hd he; exact absurd (hnoedge e ed he) id
+  · intro h hd k hh hk
+    obtain ⟨_, rfl⟩ := hheads h hd hh
+    simp [startHead] at hk
+  · intro h h' hd hd' hh hh' _ _
+    rw [(hheads h hd hh).1, (hheads h' hd' hh').1]
+  · intro h hh hd hhd
+    obtain ⟨_, rfl⟩ := hheads h hd hhd
+    exact Or.inl rfl
+
+/-- the whole run under `LexDet`: fuel, panic, or a `Final` state -/
+theorem parse_final {env : Env} (hT : TableOk env) (hC : CompleteRN env.g env.t) (hW : GWF env.g)
+    {pp : Bool} {fuel n : Nat} {tok : Nat → Tok} {P L : Nat → Pos} (hL : LexDet env pp fuel n tok P L) :
+    (parse env pp fuel = .fuel) ∨ (∃ s, parse env pp fuel = .panic s) ∨ Final env n tok P (parse env pp fuel) := by
+  unfold parse
+  simp only
+  exact mainLoop_final hT hC hW hL fuel 0 _ _ [] (fun _ => []) (runInv_start hT hL.p0 _)
+    (Nat.zero_le _) (fun h0 => by omega)
 
 /-- **Completeness of the engine.**  On a certified table, under `LexDet`, with STOP never shifted: if the token kinds
     are a sentence with derivation tree `full`, `Glr.parse` does not return an error, and every result has a root
@@ -148,9 +179,9 @@ theorem parse_complete_roots {env : Env} (hT : TableOk env) (hC : CompleteRN env
       ⟨.nil, by rw [hr0]; simp [TreeList.Valid], by simp [TreeList.yield]⟩
     rw [hy]
     exact kindsOf_head (Nat.zero_le n) 0 hL.stop.symm
-  unfold parse
-  simp only
-  exact mainLoop_run hT hC hW hNS hL halive0 full hv hy fuel 0 _ _ [] (fun _ => []) (runInv_start hT hL.p0 _)
-    (Nat.zero_le _) (fun h0 => by omega)
+  rcases parse_final hT hC hW hL with h | ⟨s, h⟩ | h
+  · rw [h]; simp [Good]
+  · rw [h]; simp [Good]
+  · exact final_complete hT hC hW hL halive0 full hv hy h
 
 end Rustemo.Glr
